@@ -22,7 +22,7 @@ func init() {
 			"C06.4 the expiry closure of the allocation timer calls m.DeleteAllocation(alloc.fiveTuple) for the allocation that owns the timer; " +
 			"C06.5 DeleteAllocation deletes the map entry and, on the found path, calls Close, whose release coverage is C15.2; " +
 			"C06.5r (=C15.2) Close releases every timer, socket and collection element of the allocation; C06.7 (=C15.7) a failed create leaves no armed timer behind (the expiry deletes by 5-tuple and would hit a later allocation), and the allocation is published before its created-callback runs; C06.8 a relay loop whose socket read fails ends its allocation at once — it never reads again, so a removed allocation's loop cannot end a later allocation of the same 5-tuple; " +
-			"C06.6 the only sources of the duration arming an allocation timer are ServerConfig.AllocationLifetime, the 10-minute default that replaces a zero value, and the decoded request LIFETIME. C06.9 (=C04.10) who may end an allocation; C06.10 (=C15.11) the lifetime timer is Reset by Refresh alone.",
+			"C06.6 the only sources of the duration arming an allocation timer are ServerConfig.AllocationLifetime, the 10-minute default that replaces a zero value, and the decoded request LIFETIME. C06.9 (=C04.10) who may end an allocation; C06.10 (=C15.11) the lifetime timer is Reset by Refresh alone. C06.11 (=C18.cb) lifecycle callbacks run outside Manager.lock.",
 		NotCovered: "wall-clock exactness ('exactly', 'no longer'), behaviour of time.Timer, races between expiry and refresh.",
 		Run:        runC06,
 	})
@@ -282,6 +282,7 @@ func runC06(c *Ctx) {
 	ruleRelayLoopGivesUpAtOnce(c, "C06.8")
 	ruleWhoMayDeleteAllocation(c, "C06.9")
 	ruleLifetimeTimerResetByRefresh(c, "C06.10")
+	ruleCallbacksOutsideManagerLock(c, "C06.11")
 
 	// ---- C06.6
 	c.Rule("C06.6", "role flow: every duration that arms or resets Allocation.lifetimeTimer originates only from ServerConfig.AllocationLifetime, a constant equal to 10 minutes (the replacement of a zero configuration), or the LIFETIME decoded from the request; API entry parameters of the manager are tolerated as test/embedding entry points", 2)
